@@ -25,6 +25,16 @@ for d in sorted(os.listdir(os.path.join(V, "seeded"))):
     need = (meta.get("needs_to_manifest") or "")
     need = need.replace("\n", " ").replace("|", "/")
     rows.append("| %s | %s | %s | %s | %s |" % (d, files, "yes" if conf.get("confirmed") else "?", "; ".join(res) or "not run", need[:230] + ("…" if len(need) > 230 else "")))
-print("| seeded change | file(s) | confirmed (suite passes, demo fails) | checks that caught it (runs with a violation / runs) | what it needs to manifest |")
-print("|---|---|---|---|---|")
-print("\n".join(rows))
+out = "\n".join(["| seeded change | file(s) | confirmed (suite passes, demo fails) | checks that caught it (runs with a violation / runs) | what it needs to manifest |",
+                 "|---|---|---|---|---|"] + rows)
+if "--write" in sys.argv:
+    # replace the table between the markers of DESIGN.md
+    f = os.path.join(V, "DESIGN.md")
+    txt = open(f).read()
+    a = txt.index("<!-- SEEDTABLE BEGIN")
+    a = txt.index("\n", a) + 1
+    b = txt.index("<!-- SEEDTABLE END -->")
+    open(f, "w").write(txt[:a] + out + "\n" + txt[b:])
+    print("DESIGN.md: %d rows" % len(rows))
+else:
+    print(out)
